@@ -453,8 +453,11 @@ def job_rescale(job, n, frame):
     job.prove(f"{tag}/reach", res[0].pc if res else [T.b_const(False)], expect="sat")
 
 
+from .c15 import job_table as _c15_job_table, replay_table_untouched  # noqa: E402,F401  (construction through FlowPropertiesTwoPhase.from_table)
+
+
 # concrete replays run on the real code when the changed code uses something the engine does not model (harness.finish)
-FALLBACK = [(replay_wrapper, {}), (replay_wrapper, {"frame": True}), (replay_wrapper, {"descending": True}), (replay_wrapper, {"cols": list(SHORT)}), (replay_rescale, {}), (replay_rescale, {"frame": False}), (replay_columns, {})]
+FALLBACK = [(replay_wrapper, {}), (replay_wrapper, {"frame": True}), (replay_wrapper, {"descending": True}), (replay_wrapper, {"cols": list(SHORT)}), (replay_rescale, {}), (replay_rescale, {"frame": False}), (replay_columns, {}), (replay_table_untouched, {})]
 
 
 def jobs(tier):
@@ -474,6 +477,7 @@ def jobs(tier):
     out.append(("simple-dict-3-descending", lambda j: job_wrapper(j, 3, ("pressure", "compressibility", "viscosity"), "FlowPropertiesSimple", False, True)))
     out.append(("long-dict-3-int-pressure-pseudopressure", lambda j: job_wrapper(j, 3, LONG, "FlowProperties", False, False, ("pressure", "pseudopressure"))))
     out.append(("alpha-dict-3-int-pressure-pseudopressure", lambda j: job_wrapper(j, 3, SHORT, "FlowProperties", False, False, ("pressure", "pseudopressure"))))
+    out.append(("two-phase-from-table-leaves-tables-alone", lambda j: _c15_job_table(j, 3, 1, effects_only=True)))
     out.append(("long-labelled-frame-3", lambda j: job_wrapper(j, 3, LONG, "FlowProperties", "labelled")))
     out.append(("alpha-labelled-frame-3", lambda j: job_wrapper(j, 3, SHORT, "FlowProperties", "labelled")))
     out.append(("rescale-labelled-frame", lambda j: job_rescale(j, 3, "labelled")))
